@@ -253,6 +253,7 @@ type connResult struct {
 // carries its own instructions (and its own tag).
 //
 //	rb=N|all|none   how much of the body the handler reads (streaming) / observes
+//	again=1         after reading: one more Read on the stream, then PostArgs() and Request.Body()
 //	bc=1            take the body through Request.Body()     rsb=1 Request.ResetBody()    sb=1 Request.SetBodyString
 //	sc=CODE         status code          body=TEXT   response body          close=1   SetConnectionClose
 //	hjc=1           the hijack handler drains the connection with io.Copy instead of Read calls
@@ -420,6 +421,16 @@ func newConnServer(cfg connCfg) *connServer {
 			}
 		} else if rb != "none" {
 			d.Body = append([]byte(nil), ctx.Request.Body()...)
+		}
+		if q.Has("again") && cfg.Stream {
+			// the handler goes back to the body after it has read it: another Read on the stream, then the accessors that
+			// read the body themselves
+			if st := ctx.RequestBodyStream(); st != nil {
+				var one [16]byte
+				st.Read(one[:])
+			}
+			_ = ctx.PostArgs().Len()
+			_ = len(ctx.Request.Body())
 		}
 		if q.Has("rsb") { // the handler drops the request body (after reading what rb says)
 			ctx.Request.ResetBody()
